@@ -252,9 +252,10 @@ impl Run {
             "wall_s": wall,
             "violations": self.violations as i64,
         });
-        let path: PathBuf = [VERIF_DIR, "evidence", &format!("{}.json", self.prop)]
-            .iter()
-            .collect();
+        // (PVX_EVIDENCE_DIR: scratch runs against modified trees must not overwrite the evidence
+        // of the unchanged tree)
+        let dir = std::env::var("PVX_EVIDENCE_DIR").unwrap_or_else(|_| format!("{}/evidence", VERIF_DIR));
+        let path: PathBuf = [dir.as_str(), &format!("{}.json", self.prop)].iter().collect();
         let _ = fs::create_dir_all(path.parent().unwrap());
         fs::write(&path, serde_json::to_string_pretty(&doc).unwrap())
             .unwrap_or_else(|e| machinery_error(&format!("cannot write evidence: {}", e)));
